@@ -651,6 +651,9 @@ class PyExec:
             if isinstance(a, PRef) and isinstance(b, PRef):
                 r = a.addr == b.addr
                 return r if isinstance(op, ast.Is) else z3.Not(r)
+            if isinstance(a, PAny) and isinstance(b, PAny):
+                r = a.t == b.t          # abstract identities
+                return r if isinstance(op, ast.Is) else z3.Not(r)
             raise OutOfSubset("`is` on %s / %s" % (a.kind, b.kind))
         if isinstance(op, (ast.In, ast.NotIn)):
             if isinstance(b, PTuple):
@@ -890,6 +893,8 @@ class PyExec:
             if isinstance(v, PRef):
                 return PBool(z3.BoolVal(v.cls in classes))
             raise OutOfSubset("isinstance of %s" % v.kind)
+        if name in self.opt.get("identity_functions", ()) and len(n.args) == 1 and not n.keywords:
+            return self.ev(st, n.args[0])       # e.g. str(x) for an x the contract says is already a str
         if name in ("str", "repr", "float", "hash", "id") and len(n.args) == 1 and not n.keywords:
             v = self.ev(st, n.args[0])
             if isinstance(v, (PAny, PInt)):
@@ -961,6 +966,9 @@ class PyExec:
                     r = z3.If(z3.And(j < recv.ln, z3.Select(recv.arr, recv.off + j) == a[0].codes[0]), z3.IntVal(j), r)
                 return PInt(r)
             raise OutOfSubset("str.find beyond a single character in a statically bounded slice")
+        if meth in self.opt.get("uf_methods", ()) and isinstance(recv, PAny) and not n.args and not n.keywords:
+            # e.g. text.lower() on an abstract string identity: an uninterpreted function of the identity
+            return PAny(z3.Function("method_" + meth, IntSort, IntSort)(recv.t))
         if meth in self.opt.get("identity_methods", ()) and isinstance(recv, (PInt, PAny)):
             # e.g. text.encode("UTF-8") on an abstract string identity: the same identity (injective re-encoding)
             self.args(st, n)
